@@ -77,3 +77,20 @@ package pogreb
 //@     invariant forall n string :: extOf(n) == ".psg" || n == "lock" ==> dirFid[fsys][n] == old(dirFid[fsys][n])
 //@     decreases len(files) - rangeindex
 //@     modifies dirFid[fsys]
+
+// removeRecoveryBackupFiles (the last step of a recovering Open): when it returns nil no backup copy is left in the
+// directory, and nothing that is not a backup copy was touched (segments, lock file, the rebuilt index and metas stay)
+//@ func removeRecoveryBackupFiles(fsys fs.FileSystem) (err error) [C04,C15]
+//@   requires fs: fsys != nil
+//@   ensures [C04] backups-gone: err == nil ==> forall n string :: extOf(n) == ".bac" ==> dirFid[fsys][n] == 0
+//@   ensures [C04] others-stay: forall n string :: extOf(n) != ".bac" ==> dirFid[fsys][n] == old(dirFid[fsys][n])
+//@   ensures [C04] only-removes: forall n string :: dirFid[fsys][n] == old(dirFid[fsys][n]) || dirFid[fsys][n] == 0
+//@   modifies dirFid[fsys]
+//@   loop 1:
+//@     invariant -1 <= rangeindex && rangeindex < len(files) && fsys == old(fsys) && files == old(files)
+//@     invariant forall q int :: off(files) <= q && q < off(files) + len(files) ==> contents(files)[q] != nil
+//@     invariant forall q int :: off(files) <= q && q <= off(files) + rangeindex && extOf(dentName[contents(files)[q]]) == ".bac" ==> dirFid[fsys][dentName[contents(files)[q]]] == 0
+//@     invariant forall n string :: extOf(n) != ".bac" ==> dirFid[fsys][n] == old(dirFid[fsys][n])
+//@     invariant forall n string :: dirFid[fsys][n] == old(dirFid[fsys][n]) || dirFid[fsys][n] == 0
+//@     decreases len(files) - rangeindex
+//@     modifies dirFid[fsys]
